@@ -25,6 +25,11 @@ def _rng(seed):
 
 
 def make_data(cfg):
+    x = _make_data(cfg)
+    return x * cfg["scale"] if cfg.get("scale") else x
+
+
+def _make_data(cfg):
     rng = _rng(cfg["seed"] * 7919 + 13)
     shape = tuple(cfg["shape"])
     kind = cfg["data"]
@@ -406,6 +411,16 @@ def _run_alg(cfg, data, cap, with_cb, tl, D):
 
 
 def make_input(cfg):
+    x = _make_input(cfg)
+    sc = cfg.get("scale")
+    if sc and cfg["alg"] == "parafac2":
+        return [s_ * sc for s_ in x]
+    if sc and cfg["alg"] == "cmtf":
+        return (x[0] * sc, x[1] * sc)
+    return x
+
+
+def _make_input(cfg):
     alg = cfg["alg"]
     if alg == "parafac2":
         rng = _rng(cfg["seed"] * 7919 + 13)
@@ -428,7 +443,7 @@ def make_input(cfg):
         return [rng.standard_normal((n, J)) for n in rows]
     if alg == "cmtf":
         rng = _rng(cfg["seed"] * 7919 + 13)
-        X = make_data(cfg)
+        X = _make_data(cfg)
         Y = rng.standard_normal((cfg["shape"][0], cfg.get("ycols", 3)))
         if cfg["data"] == "lowrank":
             r = cfg.get("data_rank", cfg["rank"])
@@ -439,7 +454,7 @@ def make_input(cfg):
             X = cp_dense(None, [A, B, C])
             Y = A @ V.T
         return (X, Y)
-    return make_data(cfg)
+    return _make_data(cfg)
 
 
 def dense_of(dec):
@@ -667,7 +682,7 @@ def _cfg_for_spec(cfg):
             "linesearch": bool(cfg.get("linesearch", False)), "callback": bool(cfg.get("callback", False)),
             "fixed": list(cfg.get("fixed", [])), "data": cfg["data"], "sparsity": bool(cfg.get("sparsity")),
             "mask": bool(cfg.get("mask")), "nn_kind": nn_kind, "nn_list": list(nn) if nn_kind == "list" else [],
-            "algorithm": cfg.get("algorithm", "none"), "stagn": bool(cfg.get("max_stagnation", 20)),
+            "algorithm": cfg.get("algorithm", "none"), "stagn": bool(cfg.get("max_stagnation", 20)) if cfg["alg"] == "rand_parafac" else False,
             "rows": list(cfg.get("rows", [])), "tenalg": cfg.get("tenalg", "core"),
             "sampled": bool(cfg.get("sampled", False)), "init_weights": cfg.get("init_weights", "none")}
 
@@ -793,6 +808,67 @@ def driver_configs(tier, seed, algs=None):
         for data in ("generic", "lowrank"):
             add("cmtf", shape=[4, 5, 3], rank=2, data=data, init=str(rng.choice(["svd", "random"])), normalize=bool(rng.rand() < 0.5),
                 tol=str(rng.choice(["zero", "loose"])))
+    # ---- every (algorithm with a normalisation option) x (tolerance kind) with normalize=True: both exit paths and the
+    #      "no tolerance at all" path must leave the canonical form (C08)
+    for alg, kw in (("parafac", {}), ("nn_parafac", {"data": "nonneg"}), ("nn_parafac_hals", {"data": "nonneg"}),
+                    ("nn_tucker", {"data": "nonneg", "rank": [2, 2, 2]}), ("nn_tucker_hals", {"data": "nonneg", "rank": [2, 2, 2], "algorithm": "fista"}),
+                    ("parafac2", {"rows": [4, 5, 4], "shape": [3, 0, 4]}), ("cmtf", {})):
+        for tol in ("zero", "tiny", "loose"):
+            if alg == "parafac2" and tol == "zero":
+                continue
+            base = dict(shape=[4, 5, 3], rank=2, data="generic", init=str(rng.choice(["svd", "random"])), normalize=True, tol=tol,
+                        caps=[0, 1, 2, 3, 5, 8])
+            base.update(kw)
+            add(alg, **base)
+    # ---- line search on data of small / large norm (the acceptance test compares relative errors)
+    for sc in (1e-2, 1e-3, 50.0):
+        add("parafac", shape=[6, 7, 8], rank=2, data="generic", init="random", tol="zero", linesearch=True, scale=sc, callback=True,
+            caps=list(range(0, 15)))
+        add("parafac2", shape=[3, 0, 4], rows=[5, 5, 5], rank=2, data="generic", init="random", tol="tiny", linesearch=True, scale=sc,
+            caps=list(range(0, 13)))
+    # ---- tensor ring with over-parameterised ranks: rank-deficient block least-squares problems
+    for shape, rank in (([2, 5, 4], [3, 1, 2, 3]), ([3, 2, 4], [2, 3, 1, 2]), ([2, 3, 2], [3, 2, 3, 3])):
+        add("tr_als", shape=shape, rank=rank, data="generic", init="random", tol=str(rng.choice(["zero", "loose"])), callback=True, ls_solve="lstsq")
+    # ---- randomised CP watched through the callback only (no stopping rule active)
+    add("rand_parafac", shape=[4, 5, 3], rank=2, data="generic", init="random", tol="zero", callback=True, max_stagnation=0)
+    add("rand_parafac", shape=[4, 5, 3], rank=2, data="lowrank", init="svd", tol="loose", callback=True, max_stagnation=0)
+
+    # ---- random sweep over the whole option space of every algorithm (what the curated list above does not pin)
+    nrand = 12 if thorough else 3
+    ch = lambda xs: xs[int(rng.randint(0, len(xs)))]
+    for _ in range(nrand):
+        sc = ch([None, None, 1e-2, 30.0])
+        add("parafac", shape=ch([[4, 5, 3], [3, 3, 4], [5, 4], [3, 4, 2, 3], [6, 1, 4]]), rank=ch([1, 2, 3]), data=ch(["generic", "lowrank", "integer"]),
+            init=ch(["svd", "random"]), normalize=ch([False, True]), tol=ch(["zero", "tiny", "loose"]), callback=ch([False, True]),
+            linesearch=ch([False, False, True]), tenalg=ch(["core", "einsum"]), scale=sc, caps=list(range(0, 13)))
+        for alg in ("nn_parafac", "nn_parafac_hals"):
+            kw = {}
+            if alg == "nn_parafac_hals":
+                kw["nn_modes"] = ch(["all", [0], [0, 2], [1]])
+            add(alg, shape=ch([[4, 5, 3], [5, 4], [3, 4, 2, 3]]), rank=ch([1, 2, 3]), data=ch(["nonneg", "nn_lowrank", "signed", "sparse"]),
+                init=ch(["svd", "random"]), normalize=ch([False, True]), tol=ch(["zero", "tiny", "loose"]), scale=ch([None, 1e-2, 30.0]), **kw)
+        add("tucker", shape=ch([[4, 5, 3], [5, 4], [3, 4, 2, 3], [4, 1, 3]]), rank=ch([[1, 1, 1, 1], [2, 2, 2, 2], [2, 1, 2, 1], [3, 2, 1, 2]]),
+            data=ch(["generic", "lowrank", "integer"]), init=ch(["svd", "random"]), tol=ch(["zero", "loose"]), scale=sc)
+        cfgs[-1]["rank"] = [min(r, s_) for r, s_ in zip(cfgs[-1]["rank"], cfgs[-1]["shape"])]
+        for alg in ("nn_tucker", "nn_tucker_hals"):
+            kw = {"algorithm": ch(["fista", "active_set"])} if alg == "nn_tucker_hals" else {}
+            add(alg, shape=[4, 5, 3], rank=ch([[2, 2, 2], [1, 2, 1], [2, 3, 2]]), data=ch(["nonneg", "nn_lowrank", "sparse"]), init=ch(["svd", "random"]),
+                normalize=ch([False, True]), tol=ch(["zero", "loose"]), caps=[0, 1, 2, 3, 5], **kw)
+        add("parafac2", shape=[3, 0, 4], rows=ch([[4, 5, 4], [5, 5, 5], [3, 6, 4]]), rank=ch([1, 2, 3]), data=ch(["generic", "lowrank", "nonneg"]),
+            init=ch(["svd", "random"]), normalize=ch([False, True]), tol=ch(["tiny", "loose"]), linesearch=ch([False, True]),
+            nn_modes=ch([None, None, [0], [0, 2]]), scale=ch([None, 1e-2, 30.0]), caps=list(range(0, 11)))
+        # tensor ring: also over-parameterised ranks (rank-deficient block problems)
+        shape, rank = ch([([4, 3, 4], [2, 2, 2, 2]), ([2, 5, 4], [3, 1, 2, 3]), ([3, 2, 4], [2, 3, 1, 2]), ([3, 4, 2, 3], [2, 1, 2, 2, 2]), ([2, 3, 2], [3, 2, 3, 3])])
+        add("tr_als", shape=shape, rank=rank, data=ch(["generic", "lowrank", "integer"]), init="random", tol=ch(["zero", "loose"]), callback=True,
+            ls_solve="lstsq", scale=sc)
+        add("rand_parafac", shape=ch([[4, 5, 3], [5, 4], [3, 4, 2, 3]]), rank=ch([1, 2]), data=ch(["generic", "lowrank"]), init=ch(["svd", "random"]),
+            tol=ch(["zero", "loose"]), callback=ch([True, True, False]), max_stagnation=ch([0, 0, 20]), n_samples=ch([8, 12, 40]))
+        add("cmtf", shape=ch([[4, 5, 3], [3, 3, 4]]), rank=ch([1, 2, 3]), data=ch(["generic", "lowrank"]), init=ch(["svd", "random"]),
+            normalize=ch([False, True]), tol=ch(["zero", "loose"]), scale=sc)
+        add("constrained_parafac", shape=ch([[4, 5, 3], [3, 4, 2, 3]]), rank=ch([1, 2]), data=ch(["nonneg", "generic", "signed"]), init=ch(["svd", "random"]),
+            tol=ch(["zero", "loose"]), inner=ch([1, 2, 10]),
+            constraints=ch([{"non_negative": True}, {"l1_reg": 0.05}, {"l2_square_reg": 0.1}, {"non_negative": {0: True}}, {"smoothness": 0.1},
+                            {"monotonicity": True}, {"hard_sparsity": 3}]))
     if algs:
         cfgs = [c for c in cfgs if c["alg"] in algs]
     return cfgs
@@ -868,6 +944,9 @@ def objseq_cases(tier, seed):
         cases.append({"id": "cpreg-%03d" % k, "kind": "cp_regressor", "seed": int(rng.randint(0, 10**6)),
                       "shape": [[4, 3], [3, 2, 3], [3, 4]][k % 3], "samples": int(rng.randint(8, 14)), "rank": int(rng.randint(1, 4)),
                       "reg": [0.1, 1.0, 10.0][k % 3]})
+        cases.append({"id": "cpregm-%03d" % k, "kind": "cp_regressor", "seed": int(rng.randint(0, 10**6)),
+                      "shape": [[4, 3], [3, 2, 3], [3]][k % 3], "samples": int(rng.randint(10, 40)), "rank": int(rng.randint(1, 4)),
+                      "reg": [1.0, 50.0, 10.0][k % 3], "yshape": [[3, 2], [2], [2, 3]][k % 3]})
         cases.append({"id": "tkreg-%03d" % k, "kind": "tucker_regressor", "seed": int(rng.randint(0, 10**6)),
                       "shape": [[4, 3], [3, 2, 3], [3, 4]][k % 3], "samples": int(rng.randint(8, 14)), "rank": int(rng.randint(1, 3)),
                       "reg": [0.1, 1.0, 10.0][k % 3]})
@@ -904,7 +983,12 @@ def objseq_execute(c):
         shape = tuple(c["shape"])
         X = rng.standard_normal((c["samples"],) + shape)
         Wtrue = rng.standard_normal(shape)
-        y = np.tensordot(X, Wtrue, axes=len(shape)) + 0.05 * rng.standard_normal(c["samples"])
+        yshape = tuple(c.get("yshape", []))
+        if yshape:
+            Wtrue = rng.standard_normal(shape + yshape)
+            y = np.tensordot(X, Wtrue, axes=len(shape)) + 0.05 * rng.standard_normal((c["samples"],) + yshape)
+        else:
+            y = np.tensordot(X, Wtrue, axes=len(shape)) + 0.05 * rng.standard_normal(c["samples"])
         for k in range(1, 9):
             if c["kind"] == "cp_regressor":
                 est = CPRegressor(weight_rank=c["rank"], tol=0, reg_W=c["reg"], n_iter_max=k, random_state=c["seed"], verbose=0)
